@@ -5,6 +5,26 @@ import json, os, subprocess
 HERE = os.path.dirname(os.path.dirname(os.path.abspath(__file__)))
 
 CHECKS = {
+ "C03": dict(
+   category="exploration", design="DESIGN.md §5 C03",
+   technique="property-based testing, self-differential: generated scenarios replayed twice in-process, in separate worker processes (fresh hash seeds) and under the release build; digests of compiled bytes, transcript, final view and canonical save must agree",
+   text="Generated tie-seeking list programs, shuffles, RANDOM, many globals and flows plus corpus stories under generated histories; every scenario is compiled three times and played twice in-process, then replayed in 3 (quick) / 8 (thorough) fresh worker processes and by the release build; all digests must be equal. Exploration: N processes sample N hash-iteration orders.",
+   note="Digest excludes diagnostic message text and the order in which one continue notifies different variables. Worker binaries are the harness built from the same tree (debug and release)."),
+ "C08": dict(
+   category="exploration", design="DESIGN.md §5 C08",
+   technique="property-based testing, metamorphic: generated programs x choice paths x pause schedules over a virtual step clock (every single pause position, pause-after-every-step, generated multi-pause schedules, blocking finish) compared with unsliced play; guarded calls probed at every pause",
+   text="Each line is finished by one cont() (reference) or by continue_async slices that pause after chosen numbers of interpreter steps (hook). All single pause positions and the all-ones schedule are enumerated per program, multi-pause schedules are generated; transcripts, notifications, external calls, final view and save must equal the unsliced run; guarded calls must be refused mid-slice without effect. Exploration only.",
+   note="Pauses happen only between interpreter steps (hook verif_set_async_step_budget); wall-clock limits select some such schedule."),
+ "C10": dict(
+   category="exploration", design="DESIGN.md §5 C10",
+   technique="property-based testing: generated disjoint flow scripts, exhaustive enumeration of all interleavings of two scripts (sampled for three) with switch-away-and-back, default-flow, save/load and remove_flow variants; oracle = each flow's solo transcript",
+   text="Programs are built from name-disjoint generated sub-programs, one per named flow; all interleavings of two host scripts (<= 4 ops each quick, <= 6 thorough) are enumerated and each flow must show exactly what it shows when run alone, also across save -> fresh story -> load, bouncing between flows, and removal of finished flows. Exploration only.",
+   note="Disjointness by construction; scripts whose solo run reports an error are discarded (errors halt the whole story by design)."),
+ "C11": dict(
+   category="exploration", design="DESIGN.md §5 C11",
+   technique="property-based testing against a polling reference model: generated programs x generated histories with observers added/removed; notifications checked against get_variable before/after every continue",
+   text="A polling model (values of all globals read before and after each continue, set of registered observer/variable pairs) decides every notification: at most one per pair per continue, exactly one if the value changed, carrying the post-continue value, none for unregistered pairs or never-assigned variables; set_variable notifies once immediately; registrations survive reset and load. Exploration only.",
+   note="Duplicate registrations are not generated; notifications during reset_state are not judged."),
  "C02": dict(
    category="exploration", design="DESIGN.md §5 C02",
    technique="property-based testing: generated programs and corpus stories x generated histories x every save point; lockstep differential original vs fresh-story+load_state; save-load-save canonical round trip",
